@@ -267,8 +267,8 @@ def sampleText : List UInt8 :=
   [91, 32, 49, 37, 99, 13, 47, 65, 35, 50, 48, 66, 40, 97, 92, 41, 92, 48, 53, 51, 92, 10, 98, 41, 60, 52, 32, 49, 62,
    45, 46, 53, 32, 93]
 
-example : Spells unitEnv.parseReal sampleValue sampleText ∧ KeysDistinct sampleValue ∧ namesUtf8 sampleValue = true ∧
-    vdepth sampleValue ≤ maxDepth := by
+theorem sample_conformant : Spells unitEnv.parseReal sampleValue sampleText ∧ KeysDistinct sampleValue ∧
+    namesUtf8 sampleValue = true ∧ vdepth sampleValue ≤ maxDepth := by
   refine ⟨?_, by simp [sampleValue, KeysDistinct, PdfSyntax.KeysDistinctL], by decide, by decide⟩
   simp only [sampleValue, sampleText, Spells]
   refine ⟨[32], _, rfl, Gap.ws 32 [] (by decide) Gap.nil, ?_⟩
@@ -300,6 +300,11 @@ example : Spells unitEnv.parseReal sampleValue sampleText ∧ KeysDistinct sampl
   refine ⟨[45, 46, 53], [32], _, rfl, ?_, Gap.ws 32 [] (by decide) Gap.nil, by simp [PdfSyntax.SpellsElems], fun _ => by simp [Bnd]; decide⟩
   simp only [Spells]
   exact ⟨⟨[45], [], [53], rfl, Or.inr (Or.inr rfl), by simp [PdfSyntax.Digits], by simp [PdfSyntax.Digits, PdfSyntax.isDig], Or.inr (by simp)⟩, rfl⟩
+
+/-- the main theorem applies to it: all hypotheses (including `Ahead` at the end of the buffer) are met -/
+example : parse unitEnv (sampleText ++ []).toArray Flags.any = .ok (sampleValue, sampleText.length) :=
+  parse_api_partial unitEnv rfl sampleValue sampleText sample_conformant.1 sample_conformant.2.1 sample_conformant.2.2.1
+    sample_conformant.2.2.2 [] (by decide) (fun _ => by simp [Bnd]) (Or.inl (by decide +kernel))
 
 /-- and the model computes that value from that text (kernel evaluation) -/
 example :
